@@ -964,6 +964,7 @@ def eager_cat_homogeneous(name, part_name, *parts):
     for part in parts:
         assert part.output == output
         assert part_name in part.inputs
+        assert part_name == name or name not in part.inputs
         inputs.update(part.inputs)
 
     tensors = []
